@@ -38,7 +38,7 @@ CHECKS = {
          "Every string of <= 9 symbols (thorough 11) over {a, space, quote, backslash, dash, é} (count checked against the closed form) is tokenised by the real Tokens::new and must be one of the token lists the statement admits; every line <= 6 symbols is also typed into a Cli and observed in the handler; every list of <= 3 strings of <= 2 symbols and <= 2 strings of <= 3 symbols is rendered quoted and must tokenise back to itself; every string of <= 4 (6) symbols at every offset 0..=48 (80) of 171 long contexts x 5 continuations, and the round trip of a^i.special.a^j for all i+j <= 40 (72).",
          "Bounded length; forks only for backslash followed by a character other than quote/backslash inside quotes.", "4 C07"),
  "C08": ("exploration", "complete enumeration of token lists (bounded) through Tokens::from_raw + ArgList::args against a reference classifier and the re-join law",
-         "Every list of <= 3 tokens of <= 3 symbols over {-, a, é, 中, 𝄞, space} (17.4 M lists) plus lists over the first/last scalar of every encoded length, through the real ArgsIter; item-by-item equality with the reference classifier and an independently coded re-join law; short lists are also typed quoted after a command name into a Cli; lists over {-, a, é} with tokens of <= 5 (6) symbols, and 252 long tokens (0-5 dashes, 33-character names and mixed-width clusters) after 0-9 other tokens, with and without `--`, followed by each other.",
+         "Every list of <= 3 tokens of <= 3 symbols over {-, a, é, 中, 𝄞, space} (17.4 M lists) plus lists over the first/last scalar of every encoded length, through the real ArgsIter; item-by-item equality with the reference classifier and an independently coded re-join law; short lists are also typed quoted after a command name into a Cli; lists over {-, a, é} with tokens of <= 5 (6) symbols, and 252 long tokens (0-5 dashes, 33-character names and mixed-width clusters) after 0-9 other tokens, with and without `--`, followed by each other; lists over the ASCII classes {-, a, 1, =, 0, Z, .} and every single token of <= 3 (4) printable ASCII characters.",
          "Bounded list and token length.", "4 C08"),
  "C13": ("model_checking", "closure of the real Writer's state under 510 output calls, each transition executed end to end in a handler and in Cli::write from 6 editor states; plus BFS sessions with every output call at every editing state",
          "(i) BFS over the real Writer's (dirty,last_bytes) state x reference (non-empty, ends-in-LF) to closure over write_str / writeln_str / uwrite! / fmt::Write::write_str / character-wise write! and uwrite! with every text of <= 3 symbols over {a, é, LF, CR}; every transition is executed inside a handler on Enter and inside Cli::write in a real Cli and compared byte for byte with conv(script)+(CRLF iff needed)+prompt; (ii) session BFS where every single output call (and some two-call scripts) is made at every reachable editing state, with the terminal emulator checking the line and cursor are redisplayed; (iii) the same on lines of up to 257 characters at every cursor position, with a four-call script of long fragments.",
